@@ -64,10 +64,10 @@ type Case struct {
 	OutputsFor, NoOutputsFor                       []string `json:",omitempty"`
 	InputsFor, NoInputsFor                         []string `json:",omitempty"`
 	SepParams, SepStates, SepSeries, SepFinalState bool
-	WriterDelayUs, ReaderDelayUs                   int // injected at every mutating / reading stand-in call
+	WriterDelayUs, ReaderDelayUs                   int      // injected at every mutating / reading stand-in call
 	Split                                          []string `json:",omitempty"` // models whose results go to their own file through the -outputs writer sub-process
-	Repeat                                         int // C05: run the same graph this many times and compare
-	Procs                                          int // C05: GOMAXPROCS
+	Repeat                                         int      // C05: run the same graph this many times and compare
+	Procs                                          int      // C05: GOMAXPROCS
 }
 
 // models whose kernels accept any non-negative input (links add arbitrary upstream outputs)
@@ -272,7 +272,7 @@ var caseSeq int
 
 type files struct {
 	in, out, params, states, series, finalStates string
-	split                                       map[string]string
+	split                                        map[string]string
 }
 
 func writeInputFile(c Case, f files) error {
